@@ -372,6 +372,10 @@ def run_c08(rep, tier):
                 loc, msg = harness.first_error(hr)
                 rep.fail("C08.f", inst, loc, "reader does not compile: " + msg)
                 continue
+            from .c08 import terminating_unwinds
+            tu = terminating_unwinds(hr.func)
+            if tu:
+                rep.fail("C08.c-array", inst, ir.where(tu[0]), "an exception raised while reading unwinds into std::terminate (noexcept frame)")
             if fr["asserts"]:
                 rep.fail("C08.c-array", inst, ir.where(fr["asserts"][0].inst), "an assertion can fail while reading")
             else:
